@@ -56,6 +56,23 @@ Lemma expiry_boundary_matches_code :
 Proof. repeat split; vm_compute; reflexivity. Qed.
 
 (* the table driven through the real dispatcher has exactly the cells of Model.all_cells *)
-Lemma table_dims_match : fold_right N.mul 1 table_dims + fold_right N.mul 1 party_dims = N.of_nat (length all_cells).
+Lemma table_dims_match :
+  fold_right N.mul 1 table_dims + fold_right N.mul 1 party_dims + fold_right N.mul 1 nosecret_dims = N.of_nat (length all_cells).
 Proof. vm_compute. reflexivity. Qed.
+
+(* a mapping that stores NO secret: the real validator accepts exactly what Model.validate accepts (the listening client naming the
+   mapping and presenting nothing) — in particular no non-empty presented secret *)
+Definition nosecret_row_ok (row : (N * bool * N) * bool) : bool :=
+  let '((c, names, sec), acc) := row in
+  let d : db := fun m => if N.eqb m 1 then mk_mapping 11 12 0 MActive else None in
+  Bool.eqb (validate tree_validator_variant d (tbl_client c) (tbl_req names sec false)) acc &&
+  (negb acc || N.eqb sec 0).
+Lemma nosecret_validator_matches_code : length nosecret_table = 16%nat /\ forallb nosecret_row_ok nosecret_table = true.
+Proof. split; vm_compute; reflexivity. Qed.
+
+(* the routing table answers only for the tunnel id that was asked (the models treat records as a function of the FULL id): a record
+   registered under an id of 20 .. 300 bytes is found under that id and not under (its first 16 .. 100 bytes + "-x") *)
+Definition routing_row_ok (row : (N * N) * (bool * bool)) : bool := let '(_, (self, cut)) := row in self && negb cut.
+Lemma routing_key_is_the_full_id : (20 <= length routing_key_table)%nat /\ forallb routing_row_ok routing_key_table = true.
+Proof. split; vm_compute; [repeat constructor | reflexivity]. Qed.
 Close Scope N_scope.
